@@ -90,8 +90,8 @@ example : (addPacketS { name := "A", root := false, fields := [], line := 7 }
             { packets := [{ name := "A", root := true, fields := [], line := 1 }] }).diags = [(7, "Duplicate packet definition for A")] := by
   decide
 
-/-- the documented pad-character spelling `'\x00'` (as the lexer delivers it: backslash, x, 0, 0) is NOT among the
-allowed values of the model (nor of the code): the option table holds a raw NUL character instead — a finding. -/
-theorem padchar_nul_rejected : (optionValues "FixedStringPadChar").map (·.contains "'\\x00'") = some false := by decide
+/-- the documented pad-character spelling `'\x00'` (as the lexer delivers it: backslash, x, 0, 0) is an allowed value.
+On the pinned tree it was not (the table held a raw NUL only): a genuine defect, repaired by a `fix:` commit. -/
+theorem padchar_nul_accepted : (optionValues "FixedStringPadChar").map (·.contains "'\\x00'") = some true := by decide
 
 end FinProtoc.Props
